@@ -125,8 +125,18 @@ func genErsWorld(r *rand.Rand, now time.Time) *ersWorld {
 			eds.Annotations[k] = v
 		}
 	}
-	a := newERS("foo-a", tplOf(1), now.Add(-2*time.Hour))
-	b := newERS("foo-b", tplOf(2), now.Add(-20*time.Minute))
+	tplA, tplB := tplOf(1), tplOf(2)
+	if r.Intn(6) == 0 {
+		// a template pasted from a running pod of another namespace: it carries metadata.namespace and a
+		// generateName (both in the CRD schema; defaulting only clears the name).  Pods are nevertheless
+		// created in the replica set's namespace with the replica set's generateName.
+		tplA.Namespace, tplB.Namespace = "ns2", "ns2"
+		tplB.GenerateName = "pasted-"
+		eds.Spec.Template = tplB
+		w.cat = append(w.cat, "template-carries-namespace")
+	}
+	a := newERS("foo-a", tplA, now.Add(-2*time.Hour))
+	b := newERS("foo-b", tplB, now.Add(-20*time.Minute))
 	w.ers = []*edsv1.ExtendedDaemonSetReplicaSet{a, b}
 	if r.Intn(4) == 0 {
 		// replica sets keep the copy of the ExtendedDaemonSet's annotations made at their creation: the
